@@ -233,4 +233,13 @@ def _workdir():
 
 
 if __name__ == "__main__":
-    sys.exit(main())
+    try:
+        code = main()
+    except SystemExit:
+        raise
+    except BaseException:  # a crash of the machinery itself is neither "held" nor a violation
+        import traceback
+        traceback.print_exc()
+        print("HARNESS ERROR: the check could not run (exit 3)")
+        code = 3
+    sys.exit(code)
